@@ -694,6 +694,6 @@ def check_any(ctx, case):
 
 
 FAMILIES = [
-    Family('files', check_any, strategy=lambda tier: files_case(), n=(1200, 100000)),
-    Family('histories', check_any, stateful=run_histories, n=(320, 40000)),
+    Family('files', check_any, strategy=lambda tier: files_case(), n=(4000, 100000)),
+    Family('histories', check_any, stateful=run_histories, n=(1000, 40000)),
 ]
